@@ -41,6 +41,8 @@ package mavl
 //@   ensures result ==> called(Equal, 1) && ret(Equal, 1) && ret(Equal, 2)
 //@   assert@call LeafNode).Hash: bytes(arg0.Key) == bytes(key) && bytes(arg0.Value) == bytes(value) && arg0.Height == 0 && arg0.Size == 1
 //@   assert@call Equal#1: arg0 == ret(Hash)
+//@   assert@call Equal#1: len(old(proof.LeafHash)) <= 32 ==> arg1 == old(proof.LeafHash)
+//@   assert@call Equal#1: len(old(proof.LeafHash)) > 32 ==> len(arg1) == 32 && sarr(arg1) == sarr(old(proof.LeafHash)) && soff(arg1) + len(arg1) == soff(old(proof.LeafHash)) + len(old(proof.LeafHash))
 //@   assert@call InnerNodeProofHash: arg1 == proof.InnerNodes[rangeindex]
 //@   loop 0 invariant rangeindex >= -1 && proof.InnerNodes == old(proof.InnerNodes)
 //@   loop 0 invariant forall i :: 0 <= i && i < len(proof.InnerNodes) ==> proof.InnerNodes[i] != nil
